@@ -170,7 +170,7 @@ pub fn run(tier: Tier) -> Report {
   let mut rep = Report::new("C12", tier, "model_checking");
   rep.assume("concurrent clause: an answer is accepted if it is right for any subscription set that was current during the call");
   rep.assume("E2 trie harnesses exclude a concurrent subscribe that walks through the node an unsubscribe is holding (real parking_lot lock on the single exploring thread)");
-  rep.add(trie_sub(tier.pick(6, 7)));
+  rep.add(trie_sub(tier.pick(6, 8)));
   let mut sub = Sub::new("trie-races", "E2");
   sub.rule = "evaluation = one complete schedule of (writer: subscribe/unsubscribe sequence) || (reader: one matches call) on the real trie, switch points inside matches (per trie level), between unsubscribe's fetch_sub and its compensation, and before subscribe's increment".into();
   let hs = harnesses(tier);
